@@ -21,8 +21,8 @@ OUT_NAMES = {0: 'returned', 1: 'PedanticTypeCheckException', 2: 'PedanticTypeVar
 
 PROFILE = {
     # volumes: (annotations quick, thorough), depth (quick, thorough), zoo sample (quick, thorough; None = all)
-    'C01': dict(n=(700, 9000), depth=(4, 6), zoo=(0, 0), bare=False, obs_frac=0.12),
-    'C02': dict(n=(700, 9000), depth=(4, 6), zoo=(0, 0), bare=False, obs_frac=0.12),
+    'C01': dict(n=(700, 9000), depth=(4, 6), zoo=(0, 0), bare=False, obs_frac=0.24),
+    'C02': dict(n=(700, 9000), depth=(4, 6), zoo=(0, 0), bare=False, obs_frac=0.24),
     'C06': dict(n=(120, 1500), depth=(3, 5), zoo=(0, 0), bare=True, obs_frac=0.05),
     'C08': dict(n=(250, 3000), depth=(4, 6), zoo=(5000, None), bare=True, obs_frac=0.10),
 }
@@ -45,7 +45,9 @@ def gen_cases(rng, pid, tier):
             continue
         obs = 'avmt'
         r = rng.random()
-        if r < P['obs_frac'] / 2:
+        if r < P['obs_frac'] / 4:
+            obs = 'pedantic_star'
+        elif r < P['obs_frac'] / 2:
             obs = 'pedantic'
         elif r < P['obs_frac'] and a[0] not in ('none', 'str'):
             obs = 'dataclass'
